@@ -80,6 +80,12 @@ class C03(Prop):
                 break
         kind = "fast" if rng.random() < 0.7 else "custom"
         builds = ["clique"] * T
+        if i % 4 == 2 and kind == "fast":
+            # a hand-written sequence whose stub total is not a multiple of the motif size: the last, incomplete group is built
+            # from the left-over stubs, which must be a uniformly random part of the stubs like every other group
+            k = rng.randrange(T)
+            if sizes[k] >= 2 and sum(r[k] for r in jds) < 5:
+                jds[rng.randrange(N)][k] += 1
         if i % 4 == 3 and kind == "fast":
             # an unused topology (all-zero column) in front of or between the used ones
             at = rng.randrange(T + 1) if rng.random() < 0.5 else 0
